@@ -236,7 +236,11 @@ pub async fn scenario(events: Vec<Ev>) -> Obs {
     // detached handles stay alive to the end of the history: what detach() did not send must not be supplied by a drop
     let mut kept: Vec<fe2o3_amqp::link::sender::DetachedSender> = vec![];
     obs.state_keys.push(h64(&0u8));
+    let mut last_sess: Option<vlib::peer::PeerSession> = None;
     for (i, ev) in events.iter().enumerate() {
+        if let Some(s) = c.peer.sessions.get(&0) {
+            last_sess = Some(s.clone());
+        }
         let sess_alive = session.is_some() && !session_over;
         let enabled = match ev {
             Ev::LAttachS => sess_alive && sender.is_none(),
@@ -255,7 +259,9 @@ pub async fn scenario(events: Vec<Ev>) -> Obs {
             Ev::PTransferUnattached => peer_ended.is_none() && !session_over,
             // (also after a local close / drop of the receiver that the peer has not answered yet: transfers that cross it)
             Ev::PXfer2 => peer_side_attached(&c.peer.trace, "r").is_some() && peer_ended.is_none() && c.peer.sessions.get(&0).map(|s| !s.end_sent).unwrap_or(false) && peer_xfers < 20,
-            Ev::PFlowEcho => peer_ended.is_none() && c.peer.sessions.get(&0).map(|s| s.lib_begin_seen && !s.end_sent).unwrap_or(false),
+            // (the peer forgets a session the library has ended even while it withholds its own end: its last view is kept
+            // in `last_sess` so that a flow which crosses the library's end can still be written)
+            Ev::PFlowEcho => peer_ended.is_none() && last_sess.as_ref().map(|s| s.lib_begin_seen && !s.end_sent).unwrap_or(false) && !peer_sent_end(&c.peer.trace),
             Ev::PDupAttach => snd_handle.is_some() && peer_detached_s.is_none() && peer_ended.is_none() && !session_over,
         };
         if !enabled {
@@ -642,6 +648,14 @@ pub async fn scenario(events: Vec<Ev>) -> Obs {
                     attached
                 });
                 let mut f = c.peer.flow_for(0);
+                if c.peer.sessions.get(&0).is_none() {
+                    if let Some(s) = &last_sess {
+                        f.next_incoming_id = Some(s.next_incoming_id);
+                        f.incoming_window = s.incoming_window;
+                        f.next_outgoing_id = s.next_outgoing_id;
+                        f.outgoing_window = s.outgoing_window;
+                    }
+                }
                 f.echo = true;
                 if let Some(l) = link {
                     f.handle = Some(Handle(l.our_handle));
@@ -873,6 +887,11 @@ pub fn run(ctx: &Ctx) -> Outcome {
     out.set("rule", "states = distinct (links attached, session alive/over, peer ended/detached, withheld answers, end sent) at quiescence; every state reached by executing the real link, session and connection engines against the scripted peer");
     out.assume("the scripted peer acts at quiescent points; 'no later than the application's next operation on that link' is checked after the next local send/detach/close/drop on the link");
     out
+}
+
+/// the peer has written its end on channel 0
+fn peer_sent_end(trace: &[WFrame]) -> bool {
+    trace.iter().any(|w| w.dir == Dirn::FromPeer && matches!(&w.body, Body::Perf(Performative::End(_))))
 }
 
 fn replay(p: &std::path::Path, mut out: Outcome) -> Outcome {
